@@ -7,6 +7,7 @@ declare -A EXPECT=(
  [C01-1]=C01 [C01-2]=C01 [C01-3]=C01
  [C02-2]=C03
  [C03-1]=C03 [C03-2]=C03 [C03-3]=C03 [C03-b2]=C03 [C03-b3]=C03 [C03-b4]=C03
+ [C04-1]=C04 [C04-2]=C04 [C04-3]=C04
  [C06-1]=C06 [C06-2]=C06 [C06-3]=C06
  [C07-1]=C07 [C07-2]=C07 [C07-3]=C07
  [C08-1]=C08 [C08-2]=C08 [C08-3]=C08
